@@ -318,6 +318,9 @@ class AstToDjangoQVisitor(visitor.NodeVisitor):
         for arg in node.args:
             if isinstance(arg, ast.NamedParam):
                 kwargs[arg.name.name] = arg.param
+            elif typing.infer_type(arg) is ast.List:
+                # None of the functions below can handle a collection:
+                raise ex.UnsupportedFunctionException(func_name + "<List>")
             else:
                 args.append(arg)
 
